@@ -42,6 +42,7 @@ type w13Conn struct {
 type w13Case struct {
 	Shape string    `json:"shape,omitempty"` // generator's case shape (informational)
 	Tries int       `json:"tries,omitempty"` // replays only: timing-dependent case, run up to this many times
+	Cross string    `json:"cross,omitempty"` // reply-batch shape: how the batched replies meet the end of the 4096-byte writer buffer
 	Conns []w13Conn `json:"conns"`
 }
 
